@@ -66,11 +66,9 @@ class BaseMQTTGateway(Gateway):
 
         Return a mysensors command string.
         """
-        topic_levels = topic.split("/")
-        topic_levels = not_prefix = topic_levels[-5:]
-        prefix_end_idx = topic.find("/".join(not_prefix)) - 1
-        prefix = topic[:prefix_end_idx]
-        if prefix != self.tasks.transport.in_prefix:
+        topic_levels = topic.split("/")[-5:]
+        # The topic must be the inbound prefix followed by exactly these five levels.
+        if topic != "/".join([self.tasks.transport.in_prefix] + topic_levels):
             return None
         if qos and qos > 0:
             ack = "1"
